@@ -61,6 +61,7 @@ static Case from_json(const J &j)
         return c;
 }
 static std::vector<isal::HashFamily> g_fams;
+static size_t g_next_fam = 0;
 
 static bool run(const Case &c, pbt::Ctx &ctx)
 {
@@ -182,29 +183,33 @@ int main(int argc, char **argv)
                 map_stream();
                 long w = ctx.optnum("worker", 0), nw = ctx.optnum("workers", 1);
                 std::vector<isal::HashFamily> all;
-                for (auto &f : isal::hash_families())
+                for (auto &f : isal::hash_families()) // already grouped by algorithm
                         if (f.runnable) all.push_back(f);
                         else ctx.notes.push_back("family skipped (host cannot execute it): " + f.label());
                 std::string only = ctx.optstr("fam", "");
-                // each worker owns the families i = w (mod workers), rotated by the seed so that successive seeds move families between the 2^32 budget slots
-                long rot = ctx.optnum("verif_seed", 0);
-                for (size_t i = 0; i < all.size(); i++) {
+                // every worker owns a contiguous slice of the (algorithm-sorted) family list, so that it needs the 4.3 GiB reference pass of at most two
+                // algorithms; families are then taken round-robin (a counter, not a random draw) so that EVERY family is exercised in every run
+                size_t n = all.size();
+                size_t lo = (size_t) w * n / (size_t) nw, hi = (size_t) (w + 1) * n / (size_t) nw;
+                for (size_t i = 0; i < n; i++) {
                         if (!only.empty() && all[i].label().find(only) == std::string::npos) continue;
-                        if (ctx.replaying || (long) ((i + rot) % (size_t) nw) == w) g_fams.push_back(all[i]);
+                        if (ctx.replaying || (i >= lo && i < hi)) g_fams.push_back(all[i]);
                 }
                 if (g_fams.empty()) g_fams.push_back(all[(size_t) w % all.size()]);
+                g_next_fam = (size_t) ctx.optnum("verif_seed", 0);
         };
         P.gen = [](pbt::Ctx &ctx) {
                 using namespace pbt;
                 Case c;
-                const isal::HashFamily &f = g_fams[rng<size_t>(0, g_fams.size() - 1)];
+                const isal::HashFamily &f = g_fams[g_next_fam++ % g_fams.size()];
                 c.fam = f.label();
                 unsigned B = isal::algo_desc[f.algo].block;
                 int lanes = f.lanes > 0 ? f.lanes : (f.lanes == 0 ? 1 : 4);
-                int n = rng<int>(1, lanes > 4 ? 4 : lanes);
-                long p32 = ctx.optnum("p32", 25); // percent of jobs that cross 2^32
+                int n = rng<int>(lanes >= 2 ? 2 : 1, lanes > 3 ? 3 : lanes);
+                long p32 = ctx.optnum("p32", 25); // percent of the additional jobs that cross 2^32
+                long full32 = ctx.optnum("full32", 1); // the first job of every case crosses 2^32 (lanes run in parallel, so the others are almost free)
                 for (int i = 0; i < n; i++) {
-                        int thr = (int) rng<int>(0, 99) < p32 ? (coin(1, 3) ? 2 : 1) : 0;
+                        int thr = (i == 0 && full32) ? (coin(1, 3) ? 2 : 1) : ((int) rng<int>(0, 99) < p32 ? (coin(1, 3) ? 2 : 1) : 0);
                         uint64_t T = thr == 0 ? (1ull << 29) : thr == 1 ? (1ull << 32) : (1ull << 32) + (1ull << 29);
                         // total = T + residue choice around block boundaries
                         int64_t d = pick<int64_t>({ 0, 1, (int64_t) B - 9, (int64_t) B - 8, (int64_t) B - 1, (int64_t) B, (int64_t) B + 1, 17, 3 * (int64_t) B + 5 });
